@@ -7,6 +7,7 @@ import (
 	"net"
 	"net/netip"
 	"os"
+	"sync"
 	"time"
 
 	"github.com/irai/packet"
@@ -28,10 +29,24 @@ type Conn struct {
 	closed bool
 	seq    int
 	Yield  bool // make WriteTo a scheduling point
+	// Safe serialises record/Take with a real mutex (only for free running, un-scheduled use: real goroutines of the
+	// handlers write concurrently); Discard counts frames instead of storing them.
+	Safe    bool
+	Discard bool
+	Count   int
+	mu      sync.Mutex
 }
 
 //go:norace
 func (c *Conn) record(b []byte) {
+	if c.Safe {
+		c.mu.Lock()
+		defer c.mu.Unlock()
+	}
+	c.Count++
+	if c.Discard {
+		return
+	}
 	d := make([]byte, len(b))
 	copy(d, b)
 	c.seq++
